@@ -400,11 +400,12 @@ class Inliner:
         view.repo = self.prog.repo
         view.overlay = dict(self.prog.overlay)
         view.modules, view.classes, view.functions = {}, {}, {}
+        self.line_maps = {}
         for name, m in self.prog.modules.items():
             tree = self.trees[m.rel]
             ast.fix_missing_locations(tree)
             if any(e.startswith(m.rel + ":") for e in self.log):
-                _renumber(tree)
+                self.line_maps[m.rel] = _renumber(tree)
             _set_parents(tree)
             nm = Module(name, m.rel, m.source, tree)
             nm.imports = import_aliases(tree)
@@ -413,6 +414,7 @@ class Inliner:
             view._index(m)
         view._literal_tuples()
         view.inlined = list(self.log)
+        view.line_maps = self.line_maps
         return view
 
     # -- one module
@@ -716,11 +718,13 @@ def _renumber(tree) -> None:
     statements carry the helper's original numbers, which would mislead rules that compare positions.  The view is
     never used to report a violation, so its positions are only ever compared with each other."""
     counter = [0]
+    line_map = {}
 
     def visit(node):
         if isinstance(node, (ast.stmt, ast.ExceptHandler)):
             counter[0] += 1
             line = counter[0]
+            line_map[line] = getattr(node, "lineno", 0)
             for n in ast.walk(node):
                 if hasattr(n, "lineno"):
                     n.lineno = line
@@ -734,6 +738,7 @@ def _renumber(tree) -> None:
                 visit(v)
 
     visit(tree)
+    return line_map
 
 
 class _GetattrFold(ast.NodeTransformer):
